@@ -11,7 +11,18 @@ import (
 func runCase(c Case) string {
 	switch c.Op {
 	case "SCAN":
-		return fmtTokens(parser.Scan(unhex(c.Fields[0])))
+		src := unhex(c.Fields[0])
+		first := fmtTokens(parser.Scan(src))
+		// history: Scan is a function of its argument
+		if len(src) <= 4096 {
+			for _, other := range []string{src[:len(src)/2], src + "'", "\ufeff" + src, src + src} {
+				parser.Scan(other)
+				if again := fmtTokens(parser.Scan(src)); again != first {
+					return again
+				}
+			}
+		}
+		return first
 	case "SPLIT":
 		// pieces ;; tokens(whole) ;; tokens(piece 1) ;; …
 		src := unhex(c.Fields[0])
